@@ -50,6 +50,8 @@ impl<OT: OtReceiver<Msg = Block> + SemiHonest> FixedKeyInitializer for Sender<OT
         shared_rand: &mut ChaCha20Rng,
     ) -> Result<Self, Error> {
         let mut ot = OT::init(channel, rng, p_to, shared_rand).await?;
+        #[cfg(feature = "__verif")]
+        crate::verif::probe("fresh:alsz_base_key", &s_);
         let s = u8vec_to_boolvec(&s_);
         let ks = ot.recv(channel, &s, rng, p_to, shared_rand).await?;
         let rngs = ks
